@@ -162,3 +162,52 @@ def _known():
 
 from pyvc import contracts as _c
 _c.PROP_RUNNERS.setdefault('C19', []).append(_run_gdb_bounded)
+
+
+# ---------------------------------------------------------------------------------------------------------------------
+# parse_args as a whole (argparse wiring): a bounded contract - the split proved above is what parse_args hands on
+_PA_EXPECT = {}
+_OURS = [[], ['-f', 'wl_surface'], ['-b', '.commit'], ['-C'], ['--color'], ['--supress'], ['--verbose'], ['-f', '5a', '--supress'], ['--filter', 'wl_*', '-b', '!'], ['-C', '--verbose']]
+_THEIRS = ['prog', '-r', '--run', '-g', '--gdb', '-f', 'x y', '-l', '', '--', '-Og', 'a"b', "it's", '\\', '--supress', '-p', '--libwayland', '-C', '-b', '--args', '.']
+
+
+def _gen_parse_args(rnd):
+    ours = list(rnd.choice(_OURS))
+    marker = rnd.choice(['-r', '--run', '-g', '--gdb'])
+    theirs = [rnd.choice(_THEIRS) for _ in range(rnd.randint(0, 5))]
+    argv = ['main.py'] + ours + [marker] + theirs
+    _PA_EXPECT[tuple(argv)] = (ours, marker, theirs)
+    return (argv,)
+
+
+from pyvc.contracts import native_helper
+
+
+@native_helper
+def parse_args_forwards_verbatim(argv, result):
+    ours, marker, theirs = _PA_EXPECT[tuple(argv)]
+    from frontends.tui.arguments import Mode
+    want_mode = Mode.RUN if marker in ('-r', '--run') else Mode.GDB_RUNNER
+    problems = []
+    if result.command_args != theirs:
+        problems.append('forwarded %r instead of %r' % (result.command_args, theirs))
+    if result.mode != want_mode:
+        problems.append('mode %r instead of %r' % (result.mode, want_mode))
+    if result.wayland_debug_args != ['main.py'] + ours:
+        problems.append('own arguments %r instead of %r' % (result.wayland_debug_args, ['main.py'] + ours))
+    if ('--supress' in ours) == result.show_unprocessed_output:
+        problems.append('--supress not honoured')
+    if problems:
+        raise AssertionError('; '.join(problems))
+    return True
+
+
+@contract('frontends.tui.arguments.parse_args')
+def _(c):
+    """everything after the first -r / -g marker is forwarded verbatim and in order, everything before is ours"""
+    c.prop('C19', 'C13')
+    c.bounded('argparse wiring around the verified _split_command / _select_mode: evaluated on generated command lines (our options before the marker, '
+              'the program\'s arguments - including wayland-debug\'s own option spellings, quotes, backslash, the empty word - after it)')
+    c.types(argv='List(str)')
+    c.ensures('parse_args_forwards_verbatim(argv, result)', 'forwards_verbatim', native_only=True)
+    c.native_gen(_gen_parse_args, quick=1500, thorough=20000)
